@@ -184,6 +184,9 @@ def _run_one(i):
     ob = _OBLIGS[i]
     t0 = time.time()
     to = ob.timeout
+    if os.environ.get("VERIF_DEBUG_HANG"):
+        import faulthandler
+        faulthandler.dump_traceback_later(int(os.environ["VERIF_DEBUG_HANG"]), exit=False)
     try:
         if to:
             signal.signal(signal.SIGALRM, _alarm)
@@ -211,10 +214,68 @@ def run_obligations(obligs, jobs=None):
         for i in range(len(obligs)):
             _, results[i] = _run_one(i)
         return results
+    # One forked child per obligation, killed by the parent when it overruns its wall-clock budget: a solver call that ignores
+    # its own timeout (z3 inside a quantifier-instantiation round does not return to the interpreter, so SIGALRM handlers never
+    # run) can then neither hang the check nor starve the other obligations.  A killed obligation is UNDECIDED, never a violation.
     ctx = mp.get_context("fork")
-    with ctx.Pool(min(jobs, len(obligs))) as pool:
-        for i, d in pool.imap_unordered(_run_one, range(len(obligs)), chunksize=1):
-            results[i] = d
+    grace = 20
+    pending = list(range(len(obligs)))
+    # longest budgets first, so that the tail of the run is not one slow obligation on an otherwise idle machine
+    pending.sort(key=lambda i: -(obligs[i].timeout or 0))
+    running = {}                # i -> (process, parent_conn, start time)
+
+    def _child(i, conn):
+        try:
+            conn.send(_run_one(i))
+        except Exception:  # pylint: disable=broad-except
+            try:
+                conn.send((i, Outcome(FAULT, detail=traceback.format_exc()[-3000:]).as_dict()))
+            except Exception:  # pylint: disable=broad-except
+                pass
+        finally:
+            conn.close()
+            os._exit(0)
+
+    while pending or running:
+        while pending and len(running) < jobs:
+            i = pending.pop(0)
+            pc, cc = ctx.Pipe(duplex=False)
+            p = ctx.Process(target=_child, args=(i, cc), daemon=True)
+            p.start()
+            cc.close()
+            running[i] = (p, pc, time.time())
+        done = []
+        for i, (p, pc, t0) in running.items():
+            got = None
+            try:
+                if pc.poll(0):
+                    got = pc.recv()
+            except (EOFError, OSError):
+                got = (i, jsonable_deep(Outcome(FAULT, detail="obligation process died without a result (killed / out of memory?)").as_dict()))
+            if got is None and not p.is_alive():
+                try:
+                    got = pc.recv() if pc.poll(0.2) else None
+                except (EOFError, OSError):
+                    got = None
+                if got is None:
+                    got = (i, jsonable_deep(Outcome(FAULT, detail=f"obligation process exited with code {p.exitcode} and no result").as_dict()))
+            to = obligs[i].timeout
+            if got is None and to and time.time() - t0 > to + grace:
+                p.kill()
+                d = Outcome(UNDECIDED, backend="timeout", detail=f"wall-clock budget {to}s exhausted (process killed: the solver did not return)").as_dict()
+                d["seconds"] = round(time.time() - t0, 2)
+                got = (i, jsonable_deep(d))
+            if got is not None:
+                results[i] = got[1]
+                done.append(i)
+        for i in done:
+            p, pc, _ = running.pop(i)
+            p.join(timeout=1)
+            if p.is_alive():
+                p.kill()
+            pc.close()
+        if not done:
+            time.sleep(0.02)
     return results
 
 
